@@ -555,3 +555,36 @@ void Cello_Exit(void) {
 }
 
 #endif
+
+#ifdef CELLO_VERIF
+
+/* Read-only accessors for the verification harness (/verif). No behaviour change. */
+
+void Cello_Verif_GC_Stat(var self, size_t* nslots, size_t* nitems, size_t* mitems,
+  uintptr_t* minptr, uintptr_t* maxptr, size_t* freenum, bool* running) {
+  struct GC* gc = self;
+  *nslots = gc->nslots;
+  *nitems = gc->nitems;
+  *mitems = gc->mitems;
+  *minptr = gc->minptr;
+  *maxptr = gc->maxptr;
+  *freenum = gc->freenum;
+  *running = gc->running;
+}
+
+bool Cello_Verif_GC_Entry(var self, size_t i, var* ptr, uint64_t* home, bool* root, bool* marked) {
+  struct GC* gc = self;
+  if (i >= gc->nslots) { return false; }
+  *ptr = gc->entries[i].ptr;
+  *home = gc->entries[i].hash;
+  *root = gc->entries[i].root;
+  *marked = gc->entries[i].marked;
+  return true;
+}
+
+void Cello_Verif_GC_Collect(var self) {
+  GC_Mark(self);
+  GC_Sweep(self);
+}
+
+#endif
